@@ -45,20 +45,57 @@ def proj_list(nl):
     return [proj_node(x) for x in nl]
 
 
-def proj_args(n):
-    """argnlist -> list of slots; slot = [] (absent) | [node] | ['LIST', nodes...]"""
+def V(x):
+    """Python value (None | node | node list) -> value record of Parser.tla"""
     from pylatexenc.latexnodes.nodes import LatexNodeList
+    if x is None:
+        return dict(vk='none', ns=[])
+    if isinstance(x, (LatexNodeList, list, tuple)):
+        return dict(vk='list', ns=[proj_node(y) for y in x])
+    return dict(vk='node', ns=[proj_node(x)])
+
+
+def proj_args(n):
+    """argnlist -> list of slot values"""
     if getattr(n, 'nodeargd', None) is None:
         return []
     al = getattr(n.nodeargd, 'argnlist', None)
     if al is None:
         return []
-    out = []
-    for a in al:
-        if a is None:
-            out.append([])
-        elif isinstance(a, LatexNodeList):
-            out.append(['LIST'] + [proj_node(x) for x in a])
-        else:
-            out.append([proj_node(a)])
-    return out
+    return [V(a) for a in al]
+
+
+def add_text(d, n):
+    """Extend a projected node (recursively) with the text carried by chars / comment nodes."""
+    import pylatexenc.latexnodes.nodes as N
+    if d is None or n is None:
+        return d
+    if isinstance(n, N.LatexCharsNode):
+        d['txt'] = codes(n.chars)
+    elif isinstance(n, N.LatexCommentNode):
+        d['txt'] = codes(n.comment)
+    return d
+
+
+def proj_node_full(n):
+    """As proj_node, plus `txt` on chars/comment nodes (for the Cover acceptor)."""
+    import pylatexenc.latexnodes.nodes as N
+    from pylatexenc.latexnodes.nodes import LatexNodeList
+    d = proj_node(n)
+    if d is None:
+        return None
+    add_text(d, n)
+    if getattr(n, 'nodeargd', None) is not None and getattr(n.nodeargd, 'argnlist', None) is not None:
+        args = []
+        for a in n.nodeargd.argnlist:
+            if a is None:
+                args.append(dict(vk='none', ns=[]))
+            elif isinstance(a, (LatexNodeList, list, tuple)):
+                args.append(dict(vk='list', ns=[proj_node_full(y) for y in a if y is not None]))
+            else:
+                args.append(dict(vk='node', ns=[proj_node_full(a)]))
+        d['args'] = args
+    nl = getattr(n, 'nodelist', None)
+    if nl is not None and not isinstance(n, (N.LatexCharsNode, N.LatexCommentNode)):
+        d['body'] = [proj_node_full(y) for y in nl if y is not None]
+    return d
